@@ -24,3 +24,50 @@ Proof. intros w x Hw. split; [exact (wrap_u_range w x Hw)|exact (wrap_u_id w x)]
 Theorem c07_wrap_signed : forall w x, 1 <= w ->
   - 2 ^ (w - 1) <= wrap_s w x < 2 ^ (w - 1) /\ (- 2 ^ (w - 1) <= x < 2 ^ (w - 1) -> wrap_s w x = x).
 Proof. intros w x Hw. split; [exact (wrap_s_range w x Hw)|exact (wrap_s_id w x Hw)]. Qed.
+
+(* ------------------------------------------------------------------------------------------
+   Part 2b: the linear-time clause, decoder by decoder.  The cost functions (Proofs/TotalCostDef.v)
+   mirror the control structure of the decoder models: one step per loop iteration / call and one
+   per byte examined or copied in it.  [lenN] is the length of a byte string.
+   ------------------------------------------------------------------------------------------ *)
+From Verif Require Import Proofs.TotalCostDef Proofs.TotalCost.
+From Verif Require Model.Flv Model.Aac Model.Avc Model.Amf0 Model.RtmpChunk Model.JsonPlus.
+Open Scope N_scope.
+
+(* AVCSample.UnmarshalBinary, every length-size byte: at most 2 steps per input byte *)
+Theorem c07_cost_linear_avc_sample : forall lsm1 data, CAvc.cost_sample lsm1 data <= 2 * lenN data + 1.
+Proof. exact PAvc.cost_sample_linear. Qed.
+(* AVCDecoderConfigurationRecord.UnmarshalBinary (both parameter-set loops) *)
+Theorem c07_cost_linear_avc_record : forall data, CAvc.cost_record data <= 2 * lenN data + 1.
+Proof. exact PAvc.cost_record_linear. Qed.
+(* ADTS Decode repeated over the remainder, from every codec state and with any fuel *)
+Theorem c07_cost_linear_adts_stream : forall fuel st data, CAac.cost_adts_stream fuel st data <= 2 * lenN data + 10.
+Proof. exact PAac.cost_adts_stream_linear. Qed.
+(* FLV demuxer over every segmented transport (data segments and faults): 2 steps per byte the
+   transport holds, 1 per segment; and for a byte string handed over in one piece *)
+Theorem c07_cost_linear_flv_demux : forall fuel s, CFlv.cost_demux fuel s <= 2 * CFlv.sbytes s + CFlv.ssegs s + 3.
+Proof. exact PFlv.cost_demux_linear. Qed.
+Theorem c07_cost_linear_flv_demux_bytes : forall fuel bs, CFlv.cost_demux fuel [Verif.Model.Flv.Data bs] <= 2 * lenN bs + 4.
+Proof. exact PFlv.cost_demux_linear_bytes. Qed.
+(* AMF0: every accepted byte string whose value is a scalar or a container of scalars (nesting
+   depth <= 1); deeper nesting is the refuted case, c07_amf0_cost_refuted *)
+Theorem c07_cost_linear_amf0_flat : forall bs v n,
+  Verif.Model.Amf0.decode_fast bs = Ok (v, n) -> CAmf0.flat v = true -> CAmf0.cost_amf0 bs <= 2 * lenN bs.
+Proof. exact PAmf0.cost_amf0_flat_linear. Qed.
+(* RTMP Protocol.ReadMessage from every reader state: 4 steps per transport byte plus one payload
+   buffer of the chunk size in force (it cannot change before the message completes) *)
+Theorem c07_cost_linear_rtmp_read_message : forall fuel s i,
+  CRtmp.cost_read_message fuel s i <= 4 * CRtmp.ibytes i + Verif.Model.RtmpChunk.in_chunk s + 1.
+Proof. exact PRtmp.cost_read_message_linear. Qed.
+(* JSON+: what holds.  ONE call of the split function is linear in the scanner window it is given
+   (all four start markers are searched through the whole window, then the end marker) ... *)
+Theorem c07_cost_linear_jsonplus_split : forall data at_eof, CJson.cost_split data at_eof <= 5 * lenN data + 6.
+Proof. exact PJson.cost_split_linear. Qed.
+(* ... but every token re-scans the window: a document held in one window costs at most
+   (tokens + 1) * (5 * window + 6); with the whole document as the window this is quadratic, and
+   that quadratic growth is attained (c07_jsonplus_window_rescan_refuted when present).  The real
+   scanner's window is its buffer (4096 bytes, doubled only for a single token that does not fit),
+   so the reader is linear in the input with a constant proportional to max(4096, 2 * longest token). *)
+Theorem c07_cost_jsonplus_strip_window : forall d, CJson.cost_strip d <= (lenN d + 2) * (5 * lenN d + 6).
+Proof. exact PJson.cost_strip_bound. Qed.
+Close Scope N_scope.
